@@ -18,7 +18,7 @@ import tempfile
 from . import common as cm
 
 REQ = ["Sys.Actions", "Sys.Wire"]
-ANCHORS = ["pyflyby._cmdline:parse_args", "pyflyby._cmdline:process_actions", "pyflyby._cmdline:Modifier",
+ANCHORS = ["pyflyby._file:Filename.list", "pyflyby._cmdline:parse_args", "pyflyby._cmdline:process_actions", "pyflyby._cmdline:Modifier",
            "pyflyby._cmdline:filename_args", "pyflyby._cmdline:action_print", "pyflyby._cmdline:action_ifchanged",
            "pyflyby._cmdline:action_replace", "pyflyby._cmdline:action_exit1", "pyflyby._cmdline:action_external_command",
            "pyflyby._cmdline:action_query", "pyflyby._cmdline:symlink_callback", "pyflyby._cmdline:symlink_error",
@@ -83,6 +83,25 @@ def gen_opts(r):
     return argv, terms
 
 
+def gen_layout(r, base, rich=False):
+    """entries of the directory argument d: regular files, hidden / non-py / __pycache__ entries, a sub-directory,
+    symlinked *.py files (to targets inside and outside the directory, a chain, dangling, hidden, non-py name),
+    a symlinked sub-directory"""
+    ents = [["inner.py", "chg"]]
+    opt = [["z.txt", "chg"], [".hidden.py", "chg"], ["sub/deep.py", "chg"], ["sub/same.py", "same"], ["__pycache__/c.py", "chg"],
+           ["a_bad.py", r.choice(["bad", "bin", "nul"])]]
+    ents += [e for e in opt if r.random() < .6]
+    have_sub = any(e[0].startswith("sub/") for e in ents)
+    links = [["lk_in.py", "link:d/inner.py"], ["lk_out.py", "link:" + r.choice(base)], ["lk_dang.py", "dangling"],
+             ["lk.txt", "link:d/inner.py"], [".lk_hidden.py", "link:" + r.choice(base)]]
+    if have_sub:
+        links += [["sub/lk_up.py", "link:" + r.choice(["d/inner.py"] + base)], ["lsub", "dirlink:d/sub"]]
+    chosen = [l for l in links if r.random() < (.6 if rich else .25)]
+    if any(l[0] == "lk_in.py" for l in chosen) and r.random() < .6:
+        chosen.append(["lk_chain.py", "link:d/lk_in.py"])
+    return ents + chosen
+
+
 def gen_case(r, i, mode=None):
     tool = r.choice(["tidy-imports", "tidy-imports", "reformat-imports", "transform-imports"])
     files = {}
@@ -91,8 +110,10 @@ def gen_case(r, i, mode=None):
     base = ["f%d.py" % j for j in range(nbase)]
     for b in base:
         files[b] = r.choice(["chg", "chg", "chg", "same", "bad", "bad", "nul", "deep", "bin"])
+    layout = None
     if r.random() < .22:
         files["d"] = "dir"
+        layout = {"d": gen_layout(r, base)}
     # symlinks: one hop or chains of 2-3 hops, relative or absolute text, into the directory, dangling, a loop
     nlinks = r.choice([0, 0, 1, 1, 2, 3])
     links = []
@@ -125,6 +146,7 @@ def gen_case(r, i, mode=None):
         # QUERY-shaped: regular files only, one QUERY ahead of REPLACE, answers of every flavour, EOF included
         files = {b: r.choice(["chg", "chg", "chg", "same", "bad"]) for b in base}
         abs_links = []
+        layout = None
         args = list(files)
         r.shuffle(args)
         k = r.random()
@@ -142,8 +164,10 @@ def gen_case(r, i, mode=None):
         files = {"f0.py": r.choice(["chg", "chg", "chg", "same", "bad", "bin"]), "f1.py": "chg"}
         hops = r.randint(2, 3)
         names = ["l%d.py" % j for j in range(hops)]
+        layout = None
         if r.random() < .3:
             files["d"] = "dir"
+            layout = {"d": gen_layout(r, ["f0.py", "f1.py"])}
         end = "d/inner.py" if "d" in files and r.random() < .5 else "f0.py"
         for j, nm in enumerate(names):
             files[nm] = "link:" + (names[j + 1] if j + 1 < hops else end)
@@ -156,12 +180,29 @@ def gen_case(r, i, mode=None):
         if r.random() < .5:
             argv.reverse()
             terms.reverse()
+    elif r.random() < .14:
+        # directory-shaped: a directory argument holding symlinked *.py entries, under an explicit or the default
+        # policy, with REPLACE reachable
+        files = {"f0.py": r.choice(["chg", "chg", "same", "bad"]), "f1.py": "chg", "d": "dir"}
+        layout = {"d": gen_layout(r, ["f0.py", "f1.py"], rich=True)}
+        abs_links = ["d/" + e[0] for e in layout["d"] if is_link_kind(e[1]) and r.random() < .4]
+        args = ["d"] + ([r.choice(["f0.py", "f1.py"])] if r.random() < .4 else [])
+        r.shuffle(args)
+        pol = r.choice(["skip", "skip", "error", "follow", "replace", None, None])
+        act = r.choice([("-r", "OReplace"), ("--actions=REPLACE", "(OActions [Replace])"), ("--actions=PRINT,REPLACE", "(OActions [Print; Replace])")])
+        argv, terms = [act[0]], [act[1]]
+        if pol:
+            argv.append("--symlinks=" + pol)
+            terms.append("(OSymlinks SV%s)" % pol.capitalize())
+            if r.random() < .5:
+                argv.reverse()
+                terms.reverse()
     m = mode or ("subprocess" if r.random() < .12 else "inprocess")
     tty = (m == "subprocess" and r.random() < .25)
     if tty:
         answers = [a.replace("\t", " ") for a in answers]     # a tab on a terminal is the completion key
     return {"kind": "tool", "i": i, "tool": tool, "argv": argv, "terms": terms, "files": files, "args": args,
-            "answers": answers, "mode": m, "tty": tty, "abs_links": abs_links}
+            "answers": answers, "mode": m, "tty": tty, "abs_links": abs_links, "layout": layout}
 
 
 DIR_LAYOUT = [("inner.py", "chg"), ("z.txt", "chg"), (".hidden.py", "chg"), ("sub/deep.py", "chg"),
@@ -203,14 +244,46 @@ def content_of(tool, kind, tag):
     return TOOLS[tool][kind] % tag
 
 
+def layout_of(c):
+    """directory name -> [[relative entry name, kind], ...]"""
+    if c.get("layout") is not None:
+        return c["layout"]
+    return {n: [list(x) for x in DIR_LAYOUT] for n, k in c["files"].items() if k == "dir"}
+
+
+def flat(c):
+    """every path of the scratch tree (root-relative name -> kind); kinds: text kinds, bin, dir, missing,
+    dangling, link:<root-relative target>, dirlink:<root-relative directory>"""
+    m = dict(c["files"])
+    for d, ents in layout_of(c).items():
+        for rel, kind in ents:
+            parts = rel.split("/")
+            for i in range(1, len(parts)):
+                m.setdefault(d + "/" + "/".join(parts[:i]), "dir")
+            m[d + "/" + rel] = kind
+    return m
+
+
 def link_target(files, name):
-    """files[name] == 'link:<t>' / 'dangling' -> name of the path the link text denotes"""
+    """the path a link's text denotes"""
     k = files[name]
-    return "nowhere.py" if k == "dangling" else k[5:]
+    return "nowhere.py" if k == "dangling" else k.split(":", 1)[1]
 
 
 def is_link_kind(k):
-    return k == "dangling" or k.startswith("link:")
+    return k == "dangling" or k.startswith("link:") or k.startswith("dirlink:")
+
+
+def canonical(fm, name):
+    """a traversal name like d/lsub/deep.py -> the name with symlinked directory components resolved"""
+    parts = name.split("/")
+    cur = ""
+    for i, part in enumerate(parts):
+        cur = part if not cur else cur + "/" + part
+        k = fm.get(cur, "")
+        if i < len(parts) - 1 and k.startswith("dirlink:"):
+            cur = k[8:]
+    return cur
 
 
 def final_of(files, name):
@@ -218,8 +291,6 @@ def final_of(files, name):
     returns the first non-link name (it may not exist), or None on a loop"""
     for _ in range(41):
         k = files.get(name)
-        if k is None and "/" in name and files.get(name.split("/")[0]) == "dir":
-            return name
         if k is None or not is_link_kind(k):
             return name
         name = link_target(files, name)
@@ -229,34 +300,35 @@ def final_of(files, name):
 def build_tree(c, root):
     """returns {relname: abspath} of every watched path, and the texts written"""
     tool = c["tool"]
+    fm = flat(c)
     watched = {}
     contents = {}
-    for name, kind in c["files"].items():
+    for name, kind in fm.items():
         p = os.path.join(root, name)
+        if kind == "dir":
+            os.makedirs(p, exist_ok=True)
+    for name, kind in fm.items():
+        p = os.path.join(root, name)
+        tag = name.split("/", 1)[1] if "/" in name else name
         if kind in TEXT_KINDS:
-            contents[name] = content_of(tool, kind, name)
+            contents[name] = content_of(tool, kind, tag)
             with open(p, "wb") as f:
                 f.write(contents[name].encode("utf-8"))
             watched[name] = p
         elif kind == "bin":
             with open(p, "wb") as f:
-                f.write(BIN_BYTES % name.encode())
+                f.write(BIN_BYTES % tag.encode())
             watched[name] = p
-        elif kind == "dir":
-            for rel, k in DIR_LAYOUT:
-                q = os.path.join(p, rel)
-                os.makedirs(os.path.dirname(q), exist_ok=True)
-                contents[name + "/" + rel] = content_of(tool, k, rel)
-                with open(q, "w") as f:
-                    f.write(contents[name + "/" + rel])
-                watched[name + "/" + rel] = q
         elif kind == "missing":
             watched[name] = p
-    for name, kind in c["files"].items():
+    for name, kind in fm.items():
         p = os.path.join(root, name)
         if is_link_kind(kind):
-            t = link_target(c["files"], name)
-            os.symlink(os.path.join(root, t) if name in c.get("abs_links", []) or kind == "dangling" else t, p)
+            t = os.path.join(root, link_target(fm, name))
+            if name in c.get("abs_links", []) or kind == "dangling":
+                os.symlink(t, p)
+            else:
+                os.symlink(os.path.relpath(t, os.path.dirname(p)), p)
             watched[name] = p
     return watched, contents
 
@@ -445,6 +517,9 @@ def impl_case(c):
             rc, out, err, started = run_subprocess(c, root, argv_full, answers_text)
         after = snap_tree(watched, root)
         extra = sorted(x for x in os.listdir(root) if x not in c["files"] and x != ".io")
+        fm = flat(c)
+        for dn in [n for n, k in fm.items() if k == "dir"]:
+            extra += sorted(dn + "/" + x for x in os.listdir(os.path.join(root, dn)) if dn + "/" + x not in fm)
         res = {"rc": rc, "stdout": out.replace(root + "/", ""), "stderr_tail": err.replace(root + "/", "")[-30000:],
                "diag": parse_stderr(err, root), "before": before, "after": after, "table": sorted(table.items(), key=lambda kv: kv[0]),
                "started": None if started is None else [os.path.relpath(x, root) for x in started], "extra_entries": extra,
@@ -459,65 +534,59 @@ def impl_case(c):
 
 def path_ids(c):
     """stable numbering of every path of the tree"""
-    names = []
-    for name, kind in c["files"].items():
-        if kind == "dir":
-            names += [name + "/" + rel for rel, _ in DIR_LAYOUT]
-        else:
-            names.append(name)
-    names.append("nowhere.py")
+    names = list(flat(c)) + ["nowhere.py"]
     return {n: i + 1 for i, n in enumerate(names)}
 
 
-def dir_members(name):
-    """harness restatement of expand_py_files_from_args for our directory layout: sorted depth-first
-    walk, names starting with '.' and __pycache__ skipped, only *.py files"""
-    tree = {}
-    for rel, _ in DIR_LAYOUT:
-        parts = rel.split("/")
-        d = tree
-        for q in parts[:-1]:
-            d = d.setdefault(q, {})
-        d[parts[-1]] = None
+def children_of(fm, d):
+    return sorted(n[len(d) + 1:] for n in fm if n.startswith(d + "/") and "/" not in n[len(d) + 1:])
+
+
+def dir_members(fm, d):
+    """harness restatement of expand_py_files_from_args for a directory argument: depth-first walk in sorted
+    order, names starting with '.' and __pycache__ skipped, only entries that are files (through symlinks too)
+    and end in .py, each under its own name; sub-directories (also symlinked ones) are recursed into"""
     out = []
 
-    def walk(d, prefix):
-        for k in sorted(d):
-            if k.startswith(".") or k == "__pycache__":
+    def walk(tname, real, depth):
+        if depth > 30:
+            return
+        for b in children_of(fm, real):
+            if b.startswith(".") or b == "__pycache__":
                 continue
-            if d[k] is None:
-                if k.endswith(".py"):
-                    out.append(prefix + k)
-            else:
-                walk(d[k], prefix + k + "/")
-    walk(tree, name + "/")
+            fin = final_of(fm, real + "/" + b)
+            k = fm.get(fin) if fin is not None else None
+            if k in TEXT_KINDS or k == "bin":
+                if b.endswith(".py"):
+                    out.append(tname + "/" + b)
+            elif k == "dir":
+                walk(tname + "/" + b, fin, depth + 1)
+    walk(d, d, 0)
     return out
 
 
 def model_expr(c, im, fx=None):
     ids = path_ids(c)
+    fm = flat(c)
     tool = c["tool"]
     nodes = []
-    for name, kind in c["files"].items():
+    for name, kind in fm.items():
+        tag = name.split("/", 1)[1] if "/" in name else name
         if kind in TEXT_KINDS:
-            nodes.append("(%s, NFile %s 0%%N)" % (cm.cN(ids[name]), cm.cstr(content_of(tool, kind, name))))
+            nodes.append("(%s, NFile %s 0%%N)" % (cm.cN(ids[name]), cm.cstr(content_of(tool, kind, tag))))
         elif kind == "bin":
             nodes.append("(%s, NBin 0%%N)" % cm.cN(ids[name]))
         elif kind == "dir":
-            for rel, k in DIR_LAYOUT:
-                nodes.append("(%s, NFile %s 0%%N)" % (cm.cN(ids[name + "/" + rel]), cm.cstr(content_of(tool, k, rel))))
+            ents = ["(mkEnt %s %s %s %s)" % (cm.cbool(b.startswith(".")), cm.cbool(b == "__pycache__"), cm.cbool(b.endswith(".py")),
+                                              cm.cN(ids[name + "/" + b])) for b in children_of(fm, name)]
+            nodes.append("(%s, NDir %s)" % (cm.cN(ids[name]), cm.clist(ents)))
         elif is_link_kind(kind):
-            nodes.append("(%s, NLink %s)" % (cm.cN(ids[name]), cm.cN(ids[link_target(c["files"], name)])))
-    args = []
-    for a in c["args"]:
-        if c["files"][a] == "dir":
-            args.append("(ADir %s)" % cm.clist([cm.cN(ids[m]) for m in dir_members(a)]))
-        else:
-            args.append("(APath %s)" % cm.cN(ids[a]))
+            nodes.append("(%s, NLink %s)" % (cm.cN(ids[name]), cm.cN(ids[link_target(fm, name)])))
+    args = ["(APath %s)" % cm.cN(ids[a]) for a in c["args"]]
     tbl = cm.clist(["(%s, %s)" % (cm.cstr(k), cm.copt(v, cm.cstr)) for k, v in im["table"]])
     opts = ["OOther"] * len(TOOLS[tool]["extra"]) + c["terms"]
     fx = fx or os.environ.get("VERIF_C09_FIXES", "repaired_code")
-    watch = sorted(ids.values())
+    watch = sorted(ids[n] for n, k in fm.items() if k != "dir") + [ids["nowhere.py"]]
     return "run_tool %s %s %s %s %s %s %s 1%%N %s" % (
         fx, tbl, cm.cbool(c["tty"]), cm.clist(opts), cm.clist(args), cm.clist([cm.cstr(a) for a in c["answers"]]),
         cm.clist(nodes), cm.clist([cm.cN(w) for w in watch]))
@@ -575,7 +644,7 @@ def compare(ctx, c, im, mv):
         want_p.append([rev[pid], ERRCLASS.get(k, "<rewriter>")])
     got_p = []
     for name, cls in im["diag"]["problems"]:
-        got_p.append([name, cls if cls in ERRCLASS.values() else "<rewriter>"])
+        got_p.append([canonical(flat(c), name), cls if cls in ERRCLASS.values() else "<rewriter>"])
     if got_p != want_p:
         ctx.disagreement("problem list on stderr", c, got_p, want_p)
     if im["diag"]["symlink_abort"] != mv["fatal"]:
@@ -587,7 +656,8 @@ def compare(ctx, c, im, mv):
     # the files the loop started on
     if im["started"] is not None:
         want_s = [rev[pid] for pid, _ in mv["log"]]
-        if im["started"] != want_s:
+        got_s = [canonical(flat(c), x) for x in im["started"]]
+        if got_s != want_s:
             ctx.disagreement("files processed, in order", c, im["started"], want_s)
     # stdout (when no external diff output is mixed in)
     if "diff" not in mv["actions"] and not c["tty"]:
@@ -656,7 +726,8 @@ def oracle(c, im):
             bad.append(("noop_cases", "malformed options, yet rc=%r changed=%r" % (im["rc"], changed)))
         return bad
     policy, actions = cfg
-    files = c["files"]
+    files = flat(c)
+    tname = {}                      # canonical name -> the name the tool was given / built while recursing
     table = dict(im["table"])
 
     def text_of(n):
@@ -676,7 +747,10 @@ def oracle(c, im):
     for a in c["args"]:
         k = files[a]
         if k == "dir":
-            argfiles += [(m, "reg") for m in dir_members(a)]
+            for t in dir_members(files, a):
+                cn = canonical(files, t)
+                tname.setdefault(cn, t)
+                argfiles.append((cn, "link" if is_link_kind(files[cn]) else "reg"))
         elif is_link_kind(k):
             f = final_of(files, a)
             if f is None or before.get(f) is None or ("bytes" not in before[f] and "bin" not in before[f]):
@@ -768,7 +842,7 @@ def oracle(c, im):
         if im["rc"] == 0:
             bad.append(("errors_do_not_stop", "failing arguments %r but exit status 0" % failing))
         for n in failing:
-            if n not in im["stderr_tail"]:
+            if tname.get(n, n) not in im["stderr_tail"]:
                 bad.append(("errors_do_not_stop", "failing argument %s is not named on stderr" % n))
     if actions in (["IFCHANGED", "REPLACE"], ["REPLACE"]):
         # with a plain replace list every changed regular file argument must have been rewritten,
@@ -832,7 +906,7 @@ def run(ctx):
         "replace|bogus, -r/-p/-d/-R/-i, --quiet/--uniform, --actions=<1-4 words incl. lower case, QUERY:prompt, EXECUTE:true, an unknown word>; "
         "1-6 arguments among changed / already-tidy regular files, files failing with different exception classes (SyntaxError, null byte, "
         "RecursionError, invalid UTF-8 = UnicodeDecodeError in the reader), symlinks (1-3 hops, relative and absolute text, into a directory, "
-        "ending nowhere, a loop), a missing name, a directory tree (hidden, non-py, __pycache__, nested), the same file twice; 0-6 scripted "
+        "ending nowhere, a loop), a missing name, a directory tree (hidden, non-py, __pycache__, nested entries, symlinked *.py entries to targets inside / outside the directory, chained, dangling, a symlinked sub-directory), the same file twice; 0-6 scripted "
         "answers among y/Yes/n/no/empty/blank/tab/'yes please'/q/... and EOF; 15% QUERY-shaped cases judged answer by answer; ~12% as "
         "unpatched subprocesses (a quarter of "
         "those under a pty = default interactive tuple), the rest in-process through runpy; thorough adds every action tuple of length <= 3 "
@@ -840,7 +914,7 @@ def run(ctx):
     ctx.assumptions += [
         "the tool's rewriting function is an oracle argument: for every text that can occur in the scratch tree it is read off a separate --actions=PRINT run of the real tool",
         "commands run by DIFF / EXECUTE do not touch the files (generator uses pyflyby-diff and `true`)",
-        "symlink chains are resolved as the kernel does (at most 40 hops, ELOOP on a loop); directory expansion is restated in the harness (M11)",
+        "symlink chains are resolved as the kernel does (at most 40 hops, ELOOP on a loop); directory listings reach the model in sorted(os.listdir) order, sorted by the harness",
         "answers are ASCII; QUERY accepts exactly the answers whose first non-blank character is y or Y",
     ]
     ctx.notes["model_fixes"] = os.environ.get("VERIF_C09_FIXES", "repaired_code")
